@@ -112,7 +112,7 @@ def prepare_slots(n, log):
     return True, out
 
 
-CHECK_RE = re.compile(r"^Check (\d+): (\S+)\n\t - Status: (\S+)\n\t - Description: \"(.*)\"\n(?:\t - Location: (.*)\n)?", re.M)
+CHECK_RE = re.compile(r"^Check (\d+): (.+)\n\t - Status: (\S+)\n\t - Description: \"(.*)\"\n(?:\t - Location: (.*)\n)?", re.M)
 
 
 def parse_output(out):
@@ -126,6 +126,9 @@ def parse_output(out):
         r["n_failed"] = int(m.group(1)); r["n_checks"] = int(m.group(2))
     for m in CHECK_RE.finditer(out):
         num, cid, st, desc, loc = m.groups()
+        # Kani renders assert!(c, "msg") as Description: ""msg""
+        if len(desc) >= 2 and desc[0] == '"' and desc[-1] == '"':
+            desc = desc[1:-1]
         if ".cover." in cid or st in ("SATISFIED", "UNSATISFIED"):
             r["covers"].setdefault(desc, st)
             if st == "SATISFIED":
